@@ -17,7 +17,7 @@ func init() {
 		Explanation: "Sibling cross-check of the two store drivers: for every method of store.Store a summary is computed from each driver's SSA — the abstract key spaces {node, peers, account, balance, trial, nonce} it reads, writes and deletes " +
 			"(memory fields and badger key prefixes mapped by a frozen six-line table), the Balance/Node fields it assigns before writing, and the store sentinel errors it can return — and the summaries must be equal (effects-agree, errors-agree); " +
 			"the documented sentinels must be present and ErrUnregisteredNode must be decided by a miss in the node space; re-registering a node keeps its tracked peers in the memory driver as in the persistent one; " +
-			"(fresh-decode) every gob decode target of struct type in the persistent driver is a zero value when decoded into (gob omits zero fields, a reused target leaks the previous record). Round 2: no success return ahead of every store read in the methods that must report unregistered nodes; setnode-keeps-peers for both drivers; accesses made by transaction helpers are attributed to their call site.",
+			"(fresh-decode) every gob decode target of struct type in the persistent driver is a zero value when decoded into (gob omits zero fields, a reused target leaks the previous record). Round 2: no success return ahead of every store read in the methods that must report unregistered nodes; setnode-keeps-peers for both drivers; accesses made by transaction helpers are attributed to their call site. Round 4: decode helpers (functions decoding into a caller-supplied target without reset) are decode sites at their call sites and loopItem must reset its target before each decode; (miss-distinguished) the key spaces whose miss the persistent driver answers with a sentinel are looked up comma-ok in the memory driver's method; (sweep-agree) every successful UpdateNodePeers of either driver passes the expiry sweep over the tracked peers.",
 		NotDecided: []string{"not decided: equality of returned values on arbitrary operation sequences (needs execution against a model); ordering/shuffling of ActiveHosts results"},
 		Exhaustive: true,
 	}
